@@ -2,7 +2,7 @@
    Debug shape of the crate's types: `Register(5)` -> (Register 5); an Immediate is a bare i64;
    labels are quoted strings; `ADD(Register(5), Register(7), Register(9))` -> (ADD (Register 5) ..). *)
 From Coq Require Import List ZArith NArith String Bool.
-From SCC Require Import Base.Sexp Model.RV.
+From SCC Require Import Base.Sexp Model.RV Sem.HeapLock.
 Import ListNotations.
 Open Scope string_scope.
 
@@ -68,3 +68,12 @@ Definition g_ritems (x : sexp) : option (list ritem) :=
   match x with L l => omap g_ritem l | _ => None end.
 Fixpoint codes_of (l : list ritem) : list rcode :=
   match l with [] => [] | RI c :: r => c :: codes_of r | RC _ :: r => codes_of r end.
+
+(* the implementation's own statement markers (Sem/HeapLock.is_statement_comment) kept as the
+   pseudo-labels "#s<comment>"; every other comment is dropped; used by heap-rv / c10-rv *)
+Fixpoint codes_of_s (l : list ritem) : list rcode :=
+  match l with
+  | [] => []
+  | RI c :: r => c :: codes_of_s r
+  | RC msg :: r => if is_statement_comment msg then LAB ("#s" ++ msg) :: codes_of_s r else codes_of_s r
+  end.
